@@ -47,7 +47,7 @@ def computeSimplex (op : FuseOp) (l r : Simplex α n) : Simplex α n :=
         let ru := r.u
         let lsb := Scalar.one - lu
         let rsb := Scalar.one - ru
-        let temp := lu + ru - two * lu * ru
+        let temp := ru * lsb + lu * rsb
         let b : Tab α n := Vector.ofFn fun i => (l.b[i] * lsb * ru + r.b[i] * rsb * lu) / temp
         let u := (lsb + rsb) * lu * ru / temp
         Simplex.normalized b u
@@ -70,9 +70,9 @@ def computeBaseRate (op : FuseOp) (same : Bool) (l r : Opinion α n) : Tab α n 
       else
         let lu := l.u
         let ru := r.u
-        let temp := lu + ru - lu * ru * two
         let lsb := Scalar.one - lu
         let rsb := Scalar.one - ru
+        let temp := ru * lsb + lu * rsb
         Vector.ofFn fun i =>
           brEntry l.a[i] r.a[i] ((l.a[i] * ru * lsb + r.a[i] * lu * rsb) / temp)
     | .avg => mean
